@@ -7,12 +7,19 @@ Open Scope N_scope.
 (* ------------------------------------------------------------------------------------------ *)
 (* generic: lists of (key, value) strictly sorted by key                                      *)
 (* ------------------------------------------------------------------------------------------ *)
+Record strict_order {K : Type} (ltb : K -> K -> bool) : Prop := mkSO {
+  so_irrefl : forall a, ltb a a = false;
+  so_trans : forall a b c, ltb a b = true -> ltb b c = true -> ltb a c = true;
+  so_total : forall a b, ltb a b = false -> ltb b a = false -> a = b
+}.
+
 Section Keyed.
   Context {K V : Type}.
   Variable ltb : K -> K -> bool.
-  Hypothesis lt_irrefl : forall a, ltb a a = false.
-  Hypothesis lt_trans : forall a b c, ltb a b = true -> ltb b c = true -> ltb a c = true.
-  Hypothesis lt_total : forall a b, ltb a b = false -> ltb b a = false -> a = b.
+  Hypothesis Hord : strict_order ltb.
+  Let lt_irrefl := so_irrefl ltb Hord.
+  Let lt_trans := so_trans ltb Hord.
+  Let lt_total := so_total ltb Hord.
 
   Definition klt (x y : K * V) : Prop := ltb (fst x) (fst y) = true.
   Definition ssorted (l : list (K * V)) : Prop := StronglySorted klt l.
@@ -259,6 +266,12 @@ Proof.
   destruct (bcmp a b) eqn:E; cbn in *; try discriminate. apply bcmp_eq; auto.
 Qed.
 
+Lemma b_ord : strict_order bltb.
+Proof. constructor; [apply bltb_irrefl | apply bltb_trans | apply bltb_total]. Qed.
+Lemma n_ord : strict_order N.ltb.
+Proof. constructor; [apply nltb_irrefl | apply nltb_trans | apply nltb_total]. Qed.
+#[global] Hint Resolve b_ord n_ord : core.
+
 Lemma beqb_eq : forall a b, beqb a b = true <-> a = b.
 Proof. intros; unfold beqb; rewrite <- bcmp_eq; destruct (bcmp a b); split; auto; discriminate. Qed.
 Lemma beqb_refl : forall a, beqb a a = true.
@@ -356,4 +369,28 @@ Qed.
 Lemma NoDup_app_snoc {A} (l : list A) (x : A) : NoDup l -> ~ In x l -> NoDup (l ++ [x]).
 Proof.
   intros Hn Hx. eapply Permutation_NoDup; [apply Permutation_cons_append|]. constructor; auto.
+Qed.
+
+Lemma NoDup_app_disjoint {A} (l1 l2 : list A) :
+  NoDup l1 -> NoDup l2 -> (forall x, In x l1 -> In x l2 -> False) -> NoDup (l1 ++ l2).
+Proof.
+  induction l1 as [|x t IH]; cbn; intros H1 H2 Hd; auto.
+  inversion H1; subst. constructor.
+  - intro Hin. apply in_app_or in Hin. destruct Hin; [contradiction | eapply Hd; eauto].
+  - apply IH; auto. intros y Hy1 Hy2. eapply Hd; eauto.
+Qed.
+
+Lemma NoDup_app_l {A} (l1 l2 : list A) : NoDup (l1 ++ l2) -> NoDup l1.
+Proof.
+  induction l1 as [|x t IH]; cbn; intro H; [constructor|]. inversion H; subst.
+  constructor; auto. intro Hin. apply H2. apply in_or_app. auto.
+Qed.
+
+Lemma NoDup_map_filter {A B} (g : A -> B) (f : A -> bool) (l : list A) :
+  NoDup (map g l) -> NoDup (map g (filter f l)).
+Proof.
+  induction l as [|x t IH]; cbn; auto. intro H. inversion H; subst.
+  destruct (f x); cbn; auto. constructor; auto.
+  intro Hin. apply H2. apply in_map_iff in Hin. destruct Hin as [y [Hy Hin]].
+  apply filter_In in Hin. rewrite <- Hy. apply in_map. tauto.
 Qed.
